@@ -395,6 +395,58 @@ def check_one_clock(eng, run):
     run.ob("C11.cycle", f"{ct.short}:deadlines-on-the-loop-clock", ok and not foreign, foreign_clock_reads=len(foreign))
 
 
+def check_recompute_charges_everything(eng, run):
+    """the helper every budget goes through: `ElapsedTime.recompute_timeout(old)` returns, on every path, a value computed from the
+    measured elapsed time (`old - elapsed`, clamped at zero) - never the old budget itself.  A shortcut that returns `old` unchanged
+    for 'negligible' waits makes a drip of short waits free: the total wait is then unbounded."""
+    from sa.analyses.buffers import assignments
+    ci = eng.db.cls("lowlevel._utils.ElapsedTime")
+    fn = ci.methods.get("recompute_timeout")
+    if fn is None:
+        raise AnalysisError("anchor vanished: ElapsedTime.recompute_timeout")
+    old = [a.arg for a in fn.params()][-1]
+    rets = [r for r in own_nodes(fn.node) if isinstance(r, ast.Return) and r.value is not None]
+    if not rets:
+        raise AnalysisError("anchor vanished: return of ElapsedTime.recompute_timeout")
+
+    def measured(e):
+        if any(isinstance(c, ast.Call) and isinstance(c.func, ast.Attribute) and c.func.attr == "get_elapsed" for c in ast.walk(e)):
+            return True
+        asg = assignments(fn)
+        todo, seen = [x.id for x in ast.walk(e) if isinstance(x, ast.Name)], set()
+        while todo:
+            nm = todo.pop()
+            if nm in seen:
+                continue
+            seen.add(nm)
+            for v in asg.get(nm, []):
+                if any(isinstance(c, ast.Call) and isinstance(c.func, ast.Attribute) and c.func.attr == "get_elapsed" for c in ast.walk(v)):
+                    return True
+                if isinstance(v, ast.Constant):
+                    continue
+                todo += [x.id for x in ast.walk(v) if isinstance(x, ast.Name)]
+        return False
+
+    bad = []
+    for r in rets:
+        v = r.value
+        # a clamp constant (`return 0.0`) is a budget that is used up: fine; anything else must be derived from the measurement
+        if isinstance(v, ast.Constant) and v.value == 0:
+            continue
+        if not measured(v) or (isinstance(v, ast.Name) and v.id == old):
+            bad.append(r)
+        else:
+            # every value bound to the returned name is derived from the measurement (a path that re-binds it to the old budget is not)
+            if isinstance(v, ast.Name):
+                for val in assignments(fn).get(v.id, []):
+                    if not (isinstance(val, ast.Constant) and val.value == 0) and not measured(val):
+                        bad.append(r)
+    for r in bad[:1]:
+        run.finding("C11.cycle", fn, r, f"`{ast.unparse(r)}` hands back a budget that was not reduced by the measured elapsed time: waits on this path are free, so a sequence of them "
+                    "(a drip of partial reads, spurious wake-ups) keeps a call with timeout T running without bound")
+    run.ob("C11.cycle", f"{fn.short}:every-return-charges-the-elapsed-time", not bad, returns=len(rets))
+
+
 def run(eng, run):
     from sa.anchors import verify as _verify_anchor_names
     _verify_anchor_names(eng, run)
@@ -404,6 +456,7 @@ def run(eng, run):
     run.attempt(check_unbudgeted_locks, eng, run)
     run.attempt(check_zero_is_not_none, eng, run)
     run.attempt(check_one_clock, eng, run)
+    run.attempt(check_recompute_charges_everything, eng, run)
     run.attempt(check_infinite_wait_error, eng, run)
     # a send loop that stops making progress (an empty chunk that is never dropped) spins for ever, whatever the timeout
     from rules import c04
